@@ -9,16 +9,29 @@ C15 driver. Requests (floats as 16 hex digits, matrices `[x,y;x,y;…]`):
   cells <nrows> <ncols> <xll> <yll> <csz> <atolDefault> <polygon>   Float model of Grid.cells_inside_polygon
         -> `ok [cells] [x:y:cell,…]` (cell list and returned table) | `err <name>`
   centres <nrows> <ncols> <xll> <yll> <csz>          Float cell centres -> `[x,y;…]`
+  pipcalln <nprint> <atol> <polyWidth> <polygon> <ptsWidth> <points> <insideLen | -1> <insideIsInt32 0|1>
+        pipcall with the `nprint` argument (int32 conversion first) -> as pipf
+  pipr  <atol> <polygon> <points>    inputs converted exactly to Rat; the model run in SIMULATED binary64 arithmetic
+        (`Rd Rat rnd53`: every + - * / rounded to 53 bits, ties to even) and the decided hypotheses of the rounding theorems
+        -> `ok <rounded answers> <sepRb 0|1> <gapRb per point> <rectb && repb 0|1> <evenOdd> <evenOddLe> <abscissaOkb, all points 0|1>`
+  piphist <atol> <points> <polygon> <buffer [..] | -> op …   a whole history on one set of argument arrays (Float):
+        ops `P:<mat>` `Y:<mat>` `A:<atol>` `B:<ints>` `D` `S:<int>` `Cn` `Cb` `Cf:<isInt32 0|1>:<len>`
+        -> `<outcome|outcome|…> <final buffer | -> <outcomes of the memoryless specification>`, outcome = `ok:0110` / `err:<name>`
+  gridhist <atolDefault> <nrows> <ncols> <xll> <yll> <csz> op …   a whole history on Grid objects (Float):
+        ops `X:<i>:<v>` `Yl:<i>:<v>` `Z:<i>:<v>` `K:<i>` `Q:<i>:<polyWidth>:<polygon>`
+        -> `<outcome|…> <number of objects>`, outcome = `ok/[cells]/[x:y:cell,…]` / `err/<name>`
 -/
 import HydroVerif.Proto
 import HydroVerif.Model.C15
+import HydroVerif.Model.C15Round
+import HydroVerif.Model.C15Hist
 open HydroVerif HydroVerif.C15
 
 local instance : NatCast Float := ⟨Float.ofNat⟩
 
 def errName : Err → String
   | .emptyPolygon => "emptyPolygon" | .insideLength => "insideLength"
-  | .insideDtype => "insideDtype" | .shapeAssert => "shapeAssert"
+  | .insideDtype => "insideDtype" | .shapeAssert => "shapeAssert" | .nprintRange => "nprintRange"
 
 /-- exact value of a finite double -/
 def ratOfFloat (f : Float) : Rat :=
@@ -41,8 +54,88 @@ def fmtPairs (l : List (Float × Float)) : String :=
 
 def toQ (l : List (Float × Float)) : List (Rat × Rat) := l.map fun p => (ratOfFloat p.1, ratOfFloat p.2)
 
-def handle (toks : List String) : String :=
+def fmtOutcome (r : Except Err (List Bool)) : String :=
+  match r with
+  | .ok l => "ok:" ++ bits l
+  | .error e => "err:" ++ errName e
+
+def fmtTable (r : Except Err (List (Float × Float × Nat))) : String :=
+  match r with
+  | .ok tb => "ok/" ++ fmtNatList (tb.map (·.2.2)) ++ "/" ++
+      fmtList (tb.map fun r => hexOfFloat r.1 ++ ":" ++ hexOfFloat r.2.1 ++ ":" ++ toString r.2.2)
+  | .error e => "err/" ++ errName e
+
+def joinBar (l : List String) : String := if l.isEmpty then "-" else "|".intercalate l
+
+def pipOp? (tok : String) : Option (PipOp Float) :=
+  match tok.splitOn ":" with
+  | ["P", m] => ((parseFloatMat? m).bind pairs?).map .setPoints
+  | ["Y", m] => ((parseFloatMat? m).bind pairs?).map .setPolygon
+  | ["A", a] => (floatTok? a).map .setAtol
+  | ["B", l] => (parseIntList? l).map .newBuffer
+  | ["D"] => some .dropBuffer
+  | ["S", v] => v.toInt?.map .scribble
+  | ["Cn"] => some (.call .none)
+  | ["Cb"] => some (.call .buffer)
+  | ["Cf", i, n] => n.toNat?.map fun n => .call (.foreign (i == "1") n)
+  | _ => none
+
+def gridOp? (tok : String) : Option (GridOp Float) :=
+  match tok.splitOn ":" with
+  | ["X", i, v] => match i.toNat?, floatTok? v with | some i, some v => some (.setXll i v) | _, _ => none
+  | ["Yl", i, v] => match i.toNat?, floatTok? v with | some i, some v => some (.setYll i v) | _, _ => none
+  | ["Z", i, v] => match i.toNat?, floatTok? v with | some i, some v => some (.setCsz i v) | _, _ => none
+  | ["K", i] => i.toNat?.map .clone
+  | ["Q", i, w, m] =>
+    match i.toNat?, w.toNat?, (parseFloatMat? m).bind pairs? with
+    | some i, some w, some poly => some (.query i w poly)
+    | _, _, _ => none
+  | _ => none
+
+def handleHist (toks : List String) : Option String :=
   match toks with
+  | "piphist" :: atol :: pts :: poly :: buf :: ops =>
+    match floatTok? atol, (parseFloatMat? pts).bind pairs?, (parseFloatMat? poly).bind pairs?,
+        (if buf == "-" then some none else (parseIntList? buf).map some), allSome (ops.map pipOp?) with
+    | some atol, some pts, some poly, some buf, some ops =>
+      let w : PipWorld Float := ⟨pts, poly, atol, buf⟩
+      let r := pipRun w ops
+      let a := pipAbsRun w.abs ops
+      let fb := match r.2.buf with | some b => fmtIntList b | none => "-"
+      some s!"{joinBar (r.1.map fmtOutcome)} {fb} {joinBar (a.1.map fmtOutcome)}"
+    | _, _, _, _, _ => some "bad-op"
+  | "gridhist" :: atol :: nrows :: ncols :: xll :: yll :: csz :: ops =>
+    match floatTok? atol, nrows.toNat?, ncols.toNat?, floatTok? xll, floatTok? yll, floatTok? csz,
+        allSome (ops.map gridOp?) with
+    | some atol, some nrows, some ncols, some xll, some yll, some csz, some ops =>
+      let r := gridRun atol [⟨nrows, ncols, xll, yll, csz⟩] ops
+      some s!"{joinBar (r.1.map fmtTable)} {r.2.length}"
+    | _, _, _, _, _, _, _ => some "bad-op"
+  | _ => none
+
+def handle (toks : List String) : String :=
+  match handleHist toks with
+  | some r => r
+  | none =>
+  match toks with
+  | ["pipcalln", nprint, atol, pw, poly, tw, pts, ilen, i32] =>
+    match nprint.toInt?, floatTok? atol, pw.toNat?, (parseFloatMat? poly).bind pairs?, tw.toNat?,
+        (parseFloatMat? pts).bind pairs?, ilen.toInt? with
+    | some nprint, some atol, some pw, some poly, some tw, some pts, some ilen =>
+      match pointsInsidePolygonCallN nprint atol tw pts pw poly
+          (if ilen < 0 then none else some (i32 == "1", ilen.toNat)) with
+      | .ok l => "ok " ++ bits l
+      | .error e => "err " ++ errName e
+    | _, _, _, _, _, _, _ => "bad-op"
+  | ["pipr", atol, poly, pts] =>
+    match floatTok? atol, (parseFloatMat? poly).bind pairs?, (parseFloatMat? pts).bind pairs? with
+    | some atol, some poly, some pts =>
+      let a := ratOfFloat atol
+      let pq := toQ poly
+      let tq := toQ pts
+      let b1 := fun (b : Bool) => if b then "1" else "0"
+      s!"ok {bits (tq.map (pointInsideRounded rnd53 a pq))} {b1 (sepRb u53 a pq)} {bits (tq.map (gapRb u53 pq))} {b1 (rectb pq && repb pq)} {bits (tq.map (evenOdd pq))} {bits (tq.map (evenOddLe pq))} {b1 (tq.all (abscissaOkb pq))}"
+    | _, _, _ => "bad-op"
   | ["pipf", atol, poly, pts, ilen] =>
     match floatTok? atol, (parseFloatMat? poly).bind pairs?, (parseFloatMat? pts).bind pairs?, ilen.toInt? with
     | some atol, some poly, some pts, some ilen =>
